@@ -201,7 +201,7 @@ theorem forPrefixes_dfsItems (s : State) (skip : Bool) {α} (h : QItem → List 
   induction ps with
   | nil => simp [forPrefixes, dfsItems]
   | cons p ps ih =>
-    rw [forPrefixes_cons, ih]
+    rw [cd_forPrefixes_cons, ih]
     cases hn : s.lruNode (lruIter p) with
     | none => simp [dfsItems, hn]
     | some n =>
@@ -222,7 +222,7 @@ theorem childFold_eq (weid : Nat) (items : List QItem) : ∀ weids : List Nat,
     rw [ih]
     by_cases hc : (¬it.2.2.we = 0 ∧ ¬it.2.2.we = weid) <;> simp [hc]
 
-theorem map_filter_flatMap {α β} (P : β → Bool) (g : α → β) (l : List α) :
+theorem cd_map_filter_flatMap {α β} (P : β → Bool) (g : α → β) (l : List α) :
     (l.map g).filter P = l.flatMap (fun x => if P (g x) then [g x] else []) := by
   induction l with
   | nil => rfl
@@ -243,7 +243,7 @@ theorem children_drain (s : State) (weid : Nat) (ps : List Bytes) (hfin : DfsFin
       (fun n p => (s.dfsIter (some (n, p)) true).flatMap (fun bl =>
         (fun it : QItem => if it.2.2.we ≠ 0 && it.2.2.we ≠ weid then [it.2.2.we] else []) (itemOf s bl))) := by
     funext n p
-    rw [map_filter_flatMap]
+    rw [cd_map_filter_flatMap]
     rfl
   rw [hF, forPrefixes_dfsItems s true
     (fun it : QItem => if it.2.2.we ≠ 0 && it.2.2.we ≠ weid then [it.2.2.we] else []) ps]
